@@ -70,7 +70,7 @@ Proof.
     destruct (seg_cases C HCnd w l Hst Hns HA s' Hs) as [Hso|n n' Hn Hn' Eid Hp -> HK|m k' q Hk' Eq Es Hm Hrole Htq Hd Hsub Hb ->].
     + apply HP; assumption.
     + assert (Hsn : is_seg w (seg_of_log (n_log n))) by (left; exists n; auto).
-      destruct HK as [El|r e0 Er Er' Ei Et Erole Efr Ept Hlead Hi2|k q x F Hk Eq Ed -> Hterm (Hx1 & Hbx & F0 & F1 & F2 & F3 & F4 & F6)].
+      destruct HK as [El|r e0 Er Er' Ei Et Erole Efr Ept Hlead Hi2|k q x F Hk Eq Ed -> Hterm (Hx1 & Hbx & F0 & F1 & F2 & F3 & F4 & F6 & F7)].
       * rewrite El in *. apply HP; assumption.
       * (* the leader appended one entry *)
         rewrite Er in Hsn. rewrite Er' in *.
@@ -145,7 +145,7 @@ Proof.
     destruct (seg_cases C HCnd w l Hst Hns HA s' Hs) as [Hso|n n' Hn Hn' Eid Hp -> HK|m k' q Hk' Eq Es Hm Hrole Htq Hd Hsub Hb ->].
     + destruct (Hno s' i2 Hso Hi Ht).
     + assert (Hsn : is_seg w (seg_of_log (n_log n))) by (left; exists n; auto).
-      destruct HK as [El|r e0 Er Er' Ei Et Erole Efr Ept Hlead Hi2|k q x F Hk Eq Ed -> Hterm (Hx1 & Hbx & F0 & F1 & F2 & F3 & F4 & F6)].
+      destruct HK as [El|r e0 Er Er' Ei Et Erole Efr Ept Hlead Hi2|k q x F Hk Eq Ed -> Hterm (Hx1 & Hbx & F0 & F1 & F2 & F3 & F4 & F6 & F7)].
       * rewrite El in Ht. destruct (Hno _ i2 Hsn Hi Ht).
       * rewrite Er in Hsn. rewrite Er' in *.
         destruct (N.le_gt_cases i2 (N.of_nat (length r))) as [Hle|Hgt].
